@@ -331,3 +331,38 @@ func init() {
 		}
 	})
 }
+
+// sync.Pool with reuse (tier param "pool_reuse": 1): Put keeps the object, Get
+// nondeterministically hands back the most recently kept one or a fresh one
+// (the runtime may drop pooled objects at any time).  Default (param absent):
+// Get always calls New, Put is a no-op, as before.
+func init() {
+	oldGet := intrinsics["(*sync.Pool).Get"]
+	oldPut := intrinsics["(*sync.Pool).Put"]
+	intrinsics["(*sync.Pool).Get"] = func(ex *Exec, fr *frame, fn *ssa.Function, a []value) value {
+		if ex.params["pool_reuse"] == 0 {
+			return oldGet(ex, fr, fn, a)
+		}
+		p := a[0].(*value)
+		if ex.pools == nil {
+			ex.pools = map[*value][]value{}
+		}
+		if q := ex.pools[p]; len(q) > 0 && ex.chooseN(2, "sync.Pool.Get: reuse or fresh") == 0 {
+			v := q[len(q)-1]
+			ex.pools[p] = q[:len(q)-1]
+			return v
+		}
+		return oldGet(ex, fr, fn, a)
+	}
+	intrinsics["(*sync.Pool).Put"] = func(ex *Exec, fr *frame, fn *ssa.Function, a []value) value {
+		if ex.params["pool_reuse"] == 0 {
+			return oldPut(ex, fr, fn, a)
+		}
+		p := a[0].(*value)
+		if ex.pools == nil {
+			ex.pools = map[*value][]value{}
+		}
+		ex.pools[p] = append(ex.pools[p], a[1])
+		return nil
+	}
+}
